@@ -38,7 +38,7 @@ def to_drv(s, sid, rng):
     cf = s["cf"]
     scn = {
         "id": sid, "dest": cf["dest"], "len": cf["len"], "tail": 0, "unit": UNIT,
-        "chunk": cf["chunk"], "defch": 0, "blobmax": cf["bmax"], "min": cf["min"],
+        "chunk": cf["chunk"], "defch": 0, "blobmax": cf["bmax"], "defmax": 0, "min": cf["min"],
         "enforce": int(bool(cf["enforce"])), "seek": int(bool(cf["seek"])), "piece": 0,
         "decl": cf["decl"], "alg": rng.choice(["sha256", "sha512"]), "loc": cf["loc"],
         "exists": cf["exists"], "koff": 0, "script": [],
@@ -50,6 +50,9 @@ def to_drv(s, sid, rng):
     # the model's DefChunk is 2: an unset host.BlobChunk with WithBlobSize(2 units) is the same
     if cf["dest"] == "reg" and cf["chunk"] == 2 and rng.random() < 0.25:
         scn["chunk"], scn["defch"] = 0, 2
+    # likewise an unset host.BlobMax with the client wide limit (WithBlobSize max)
+    if cf["dest"] == "reg" and rng.random() < 0.25:
+        scn["blobmax"], scn["defmax"] = 0, cf["bmax"]
     return scn
 
 
@@ -110,6 +113,7 @@ def variants(base, rng, n):
             b = copy.deepcopy(oci[rng.randrange(len(oci))])
         else:
             b = copy.deepcopy(pool[rng.randrange(len(pool))])
+        b["base"] = b["id"]
         b["id"] = "%s~%s%d" % (b["id"], kind, i)
         if "tail" in kind:
             b["tail"] = rng.choice([1, 188, 511])
@@ -137,23 +141,8 @@ def load_known(ctx):
     return base
 
 
-def robust(fn):
-    """TLC runs of this check were seen to be terminated from outside (SIGTERM, rc 143) while many
-    checks share the machine; such a run says nothing, so it is repeated (twice at most)."""
-    def wrapped(*a, **kw):
-        for attempt in range(3):
-            try:
-                return fn(*a, **kw)
-            except vlib.ToolError as e:
-                if attempt == 2 or not re.search(r"rc=(143|137|-15|-9)\b", str(e)):
-                    raise
-                vlib.log("C05: TLC run was killed from outside, repeating it")
-    return wrapped
-
-
 def run(ctx):
     ctx.load_known = lambda: load_known(ctx)
-    ctx.tlc = robust(ctx.tlc)
     rng = random.Random(ctx.seed)
     thorough = ctx.thorough
     t0 = time.time()
@@ -168,9 +157,9 @@ def run(ctx):
         mc.append(ctx.tlc("BlobPutMC", "C05_mc_thorough.cfg", timeout=3000,
                           label="len 0-7, chunk 1-3, BlobMax -1/2/4, min none/2/3 (enforced or not), 2 partial, no fault"))
         mc.append(ctx.tlc("BlobPutMC", "C05_mc_thorough1.cfg", timeout=3000,
-                          label="len 0-6, chunk 1-3, BlobMax -1/2/4, min none/2/3, 2 partial, 1 fault"))
+                          label="len 0-5, chunk 1-3, BlobMax -1/2/4, min none/2/3, 2 partial, 1 fault"))
         mc.append(ctx.tlc("BlobPutMC", "C05_mc_faults.cfg", timeout=3000,
-                          label="len 0-5, chunk 1-3, BlobMax -1/2, min none/2 enforced, 1 partial, 2 faults"))
+                          label="len 0-5, chunk 1-3, BlobMax -1/2, min none/2 enforced, 4 descriptor kinds, 1 partial, 2 faults"))
     else:
         mc.append(ctx.tlc("BlobPutMC", "C05_mc_quick.cfg", timeout=900,
                           label="len 0-4, chunk 1-3, BlobMax -1/2, min none/2 enforced, 2 partial, 1 fault"))
@@ -226,6 +215,10 @@ def run(ctx):
     exact_ids = set(model)
     var = variants([d for d in drv if d["id"].startswith(("gen_core", "gen_sim"))], rng, 3000 if thorough else 400)
     drv += var
+    for b in var:
+        if b["variant"] == "unit1":          # only the scale changes: the model's prediction still applies
+            model[b["id"]] = model[b["base"]]
+            exact_ids.add(b["id"])
 
     scn_file = ctx.path("c05", "scn.jsonl")
     with open(scn_file, "w") as f:
